@@ -294,7 +294,9 @@ pub struct Socks5InitialRequest {
 
 //@@ octo-squirrel/src/protocol/socks5/message.rs:19-23  impl Socks5InitialRequest  sha=66b70fecd4f00ef9
 impl Socks5InitialRequest {
-    fn new(auth_methods: Vec<Socks5AuthMethod>) -> Self {
+    fn new(auth_methods: Vec<Socks5AuthMethod>) -> (r: Self)
+        ensures r.auth_methods == auth_methods,
+    {
         Socks5InitialRequest { auth_methods }
     }
 }
@@ -317,16 +319,24 @@ pub struct Socks5InitialResponse {
 
 //@@ octo-squirrel/src/protocol/socks5/message.rs:38-42  impl Socks5InitialResponse  sha=7a6280ab6a32c0a3
 impl Socks5InitialResponse {
-    fn new(auth_method: Socks5AuthMethod) -> Self {
+    fn new(auth_method: Socks5AuthMethod) -> (r: Self)
+        ensures r.auth_method == auth_method,
+    {
         Self { auth_method }
     }
 }
 
 //@@ octo-squirrel/src/protocol/socks5/message.rs:44-49  impl Socks5Message for Socks5InitialResponse  sha=8dd6279b740c0a99
 impl Socks5InitialResponse {
-    fn encode(&mut self, dst: &mut BytesMut) {
+    fn encode(&mut self, dst: &mut BytesMut)
+        ensures
+            //#C13
+            // RFC 1928 3: VER 5, METHOD
+            final(dst)@ == old(dst)@ + seq![5u8, old(self).auth_method as u8], *final(self) == *old(self),
+    {
         dst.put_u8(VERSION);
         dst.put_u8(self.auth_method as u8);
+        proof { assert(dst@ =~= old(dst)@ + seq![5u8, old(self).auth_method as u8]); }
     }
 }
 
